@@ -1,7 +1,8 @@
 (** C05 — packet protection round-trips, matches RFC 9001, rejects tampering.
     Only statements live here; each is closed by [exact] of a lemma proved elsewhere. *)
 From Coq Require Import List ZArith Sorted.
-From V Require Import Gen.Params PktProt.PktNum PktProt.PktNumProofs PktProt.KeyPhase PktProt.KeyPhaseProofs PktProt.KeyDerive PktProt.KeyDeriveProofs PktProt.KeyPhaseRun PktProt.KeyPhaseWindow PktProt.KeyPhaseSys PktProt.KeyPhaseSysProofs PktProt.KeyPhaseExamples PktProt.Protect PktProt.ProtectProofs PktProt.ProtectExamples.
+From Coq Require String.
+From V Require Import Gen.Params PktProt.PktNum PktProt.PktNumProofs PktProt.KeyPhase PktProt.KeyPhaseProofs PktProt.KeyDerive PktProt.KeyDeriveProofs PktProt.KeyPhaseRun PktProt.KeyPhaseWindow PktProt.KeyPhaseSys PktProt.KeyPhaseSysProofs PktProt.KeyPhaseExamples PktProt.Sha256 PktProt.InitialKeys PktProt.InitialKeysProofs Lib.Hex PktProt.Protect PktProt.ProtectProofs PktProt.ProtectExamples.
 Import ListNotations.
 Open Scope Z_scope.
 
@@ -234,3 +235,45 @@ Example C05_keyphase_histories_nonvacuous :
              p_gen p = keyPhase (ep (sd sys_example false)) + 1).
 Proof. exact (conj sym_open_seal (conj sym_open_wrong_key sys_example_ok)). Qed.
 Print Assumptions C05_keyphase_histories_nonvacuous.
+
+Import Coq.Strings.String. (* string literals below; placed here because String.length would shadow List.length above *)
+
+(** (b) Initial keys, concretely.  With SHA-256, HMAC and HKDF written in Gallina (Sha256.v,
+    no code shared with /repo): the code's derivation (salts and "client in"/"server in"
+    taken from the code through Gen/Params.v) IS
+      HKDF-Expand-Label(HKDF-Expand-Label(HKDF-Extract(salt_v, dcid), "client in"|"server in", "", 32), key|iv|hp label of v, ...)
+    with the salts of RFC 9001 5.2 / RFC 9369 3.3.1, for every connection ID and both
+    versions; an edited salt or label breaks this proof. *)
+Theorem C05_initial_keys_rfc :
+  forall (v2 client : bool) (dcid : list Z),
+    let initial := hkdf_extract (rfc_salt v2) dcid in
+    let s := expand_label initial (rfc_side_label client) 32 in   (* "client in" / "server in" *)
+    let '(lk, li, lh, _) := rfc_labels v2 in
+    initial_secret v2 client dcid = s /\
+    initial_keys v2 client dcid = (expand_label s lk 16, expand_label s li 12, expand_label s lh 16).
+Proof. exact initial_keys_rfc. Qed.
+Print Assumptions C05_initial_keys_rfc.
+
+(** RFC 9001 Appendix A.1 (v1) and RFC 9369 Appendix A.1 (v2), DCID 0x8394c8f03e515708:
+    initial secret, client/server secrets, keys, IVs and header-protection keys, computed by
+    the Gallina SHA-256/HMAC/HKDF inside Coq. *)
+Example C05_rfc9001_A1 :
+  hkdf_extract (rfc_salt false) rfc_dcid = hx "7db5df06e7a69e432496adedb00851923595221596ae2ae9fb8115c1e9ed0a44" /\
+  initial_secret false true rfc_dcid = hx "c00cf151ca5be075ed0ebfb5c80323c42d6b7db67881289af4008f1f6c357aea" /\
+  initial_keys false true rfc_dcid =
+    (hx "1f369613dd76d5467730efcbe3b1a22d", hx "fa044b2f42a3fd3b46fb255c", hx "9f50449e04a0e810283a1e9933adedd2") /\
+  initial_secret false false rfc_dcid = hx "3c199828fd139efd216c155ad844cc81fb82fa8d7446fa7d78be803acdda951b" /\
+  initial_keys false false rfc_dcid =
+    (hx "cf3a5331653c364c88f0f379b6067e37", hx "0ac1493ca1905853b0bba03e", hx "c206b8d9b9f0f37644430b490eeaa314").
+Proof. exact rfc9001_A1. Qed.
+Print Assumptions C05_rfc9001_A1.
+
+Example C05_rfc9369_A1 :
+  initial_secret true true rfc_dcid = hx "14ec9d6eb9fd7af83bf5a668bc17a7e283766aade7ecd0891f70f9ff7f4bf47b" /\
+  initial_keys true true rfc_dcid =
+    (hx "8b1a0bc121284290a29e0971b5cd045d", hx "91f73e2351d8fa91660e909f", hx "45b95e15235d6f45a6b19cbcb0294ba9") /\
+  initial_secret true false rfc_dcid = hx "0263db1782731bf4588e7e4d93b7463907cb8cd8200b5da55a8bd488eafc37c1" /\
+  initial_keys true false rfc_dcid =
+    (hx "82db637861d55e1d011f19ea71d5d2a7", hx "dd13c276499c0249d3310652", hx "edf6d05c83121201b436e16877593c3a").
+Proof. exact rfc9369_A1. Qed.
+Print Assumptions C05_rfc9369_A1.
